@@ -23,7 +23,7 @@ FLAT_CLASSES = [('IndexGO', 6), ('auto', 3), ('auto_static', 1.5), ('dt64_plain'
                 ('IndexYearGO', 0.7), ('IndexSecondGO', 0.5), ('Index', 0.7), ('IndexDate', 0.3)]
 IX_DERIVES = ['copy', 'deepcopy', 'pickle', 'static', 'go', 'rename', 'relabel', 'roll', 'sort', 'iloc_sel', 'iloc_slice', 'iloc_slice', 'iloc_mask',
               'loc_sel', 'drop_iloc', 'head', 'tail', 'union', 'intersection', 'difference', 'astype',
-              'level_add', 'copy_copy', 'to_series_index', 'frame_columns', 'values_ctor']
+              'level_add', 'copy_copy', 'to_series_index', 'frame_columns', 'values_ctor', 'union_none', 'intersection_none']
 
 
 def raw_labels(obj):
@@ -79,6 +79,8 @@ class IndexOps:
             labels = ch.sample(DATES[u], n)
             if ch.chance(0.5):
                 labels = sorted(labels)
+            if u in ('Y', 'D', 's') and ch.chance(0.1):
+                op['auto_src'] = True
         else:
             fam = ch.choice(['str', 'int', 'mix', 'int0'])
             if fam == 'int0':
@@ -225,7 +227,13 @@ class IndexOps:
             return 'skip'
         dup = len(set(norm_list(coerced))) != len(coerced)
         route = op.get('route', 'list')
-        if op.get('dt64'):
+        if op.get('auto_src') and u:
+            # a datetime-typed index made from a default (auto-integer, map-less) index: the integers are converted
+            n_ = len(labels)
+            coerced = [np.datetime64(i, u) for i in range(n_)]
+            dup = False
+            st, r = call(lambda: self._ix_cls(cls)(sf.Series(np.zeros(n_)).index, name=name))
+        elif op.get('dt64'):
             coerced = [np.datetime64(x, op['dt64']) for x in labels]
             st, r = call(lambda: sf.IndexGO(np.array(labels, dtype='datetime64[%s]' % op['dt64']), name=name))
         elif op.get('auto'):
@@ -585,6 +593,10 @@ class IndexOps:
                 return obj.head(op.get('k', 1))
             if how == 'tail':
                 return obj.tail(op.get('k', 1))
+            if how == 'union_none':
+                return obj.union()  # no operands: still a new index
+            if how == 'intersection_none':
+                return obj.intersection()
             if how == 'union':
                 return obj.union(o)
             if how == 'intersection':
